@@ -5,7 +5,10 @@ import (
 	"errors"
 	"fmt"
 	"io"
+	"net"
+	"os"
 	"reflect"
+	"syscall"
 	"testing"
 	"time"
 
@@ -247,6 +250,7 @@ func TestC09(t *testing.T) {
 			rw := &recWriter{}
 			var write func(m message.Message) error
 			var forward func(fr frame.Frame) error
+			var reinit func() error
 			if api == "streamwriter" {
 				fw := &frame.Writer{ByteWriter: rw, DialectRW: genv.drw}
 				_ = fw.Initialize()
@@ -257,6 +261,7 @@ func TestC09(t *testing.T) {
 				}
 				write = sw.Write
 				forward = fw.Write
+				reinit = sw.Initialize
 			} else if api == "framewriter" {
 				fw := &frame.Writer{ByteWriter: rw, DialectRW: genv.drw, OutVersion: frame.WriterOutVersion(conf.version), OutSystemID: conf.sys,
 					OutComponentID: conf.comp, OutKey: key, OutSignatureLinkID: conf.link}
@@ -266,6 +271,7 @@ func TestC09(t *testing.T) {
 				}
 				write = fw.WriteMessage
 				forward = fw.Write
+				reinit = fw.Initialize
 			} else if api == "newwriter" {
 				// the deprecated constructor
 				fw, err := frame.NewWriter(frame.WriterConf{Writer: rw, DialectRW: genv.drw, OutVersion: frame.WriterOutVersion(conf.version), OutSystemID: conf.sys,
@@ -328,7 +334,39 @@ func TestC09(t *testing.T) {
 						refused++
 						continue
 					}
+					if reinit != nil && i%97 == 41 {
+						// the writer value stays on its link and is validated once more (nothing changed): the link's numbering goes on
+						if err := reinit(); err != nil {
+							rep.Violation("api="+api+" what=init:valid", "a second Initialize of a valid writer was refused: "+err.Error(), conf.String())
+						}
+						rep.Count("writers_initialized_again_on_their_link", 1)
+					}
 					m, mi := randMsg(v2, api == "streamwriter" && r.Chance(1, 3))
+					if i%53 == 17 {
+						// the transport takes the whole frame and then reports a network error (a mirror socket refused, the error of an
+						// earlier datagram): the frame is on the link with its number, the next frame must not repeat it. When nothing was
+						// taken the number may be spent (a refused write)
+						nerrs := []error{&net.OpError{Op: "write", Net: "udp", Err: syscall.ECONNREFUSED}, fmt.Errorf("mirror: %w", os.ErrDeadlineExceeded), net.ErrClosed, errors.New("plain failure")}
+						rw.failAt, rw.failMode, rw.err = 1, []int{2, 2, 0}[(i/53)%3], nerrs[(i/53)%len(nerrs)]
+						err := write(m)
+						mode := rw.failMode
+						rw.failAt = 0
+						if err == nil {
+							rep.Violation("api="+api+" what=seq", "a failed transport write was reported as accepted", conf.String())
+						}
+						rep.Count("transport_write_errors_injected", 1)
+						if mode == 2 && len(rw.calls) == 1 {
+							rep.Count("frames_delivered_although_the_write_failed", 1)
+							var rp []byte
+							if raw, isRaw := m.(*message.MessageRaw); isRaw {
+								rp = append([]byte{}, raw.Payload...)
+							}
+							emitted = append(emitted, c09emitted{wire: rw.calls[0], refusedBefore: refused, rawPayload: rp})
+						} else {
+							refused++
+						}
+						continue
+					}
 					var rawPayload []byte
 					if raw, isRaw := m.(*message.MessageRaw); isRaw {
 						if v2 && r.Chance(1, 2) {
